@@ -66,6 +66,11 @@ impl Regex {
             if c == '^' && i == 0 {
                 continue;
             }
+            // a repetition like {0,1} may make the previous character optional as well
+            if c == '{' && !escape {
+                result.pop();
+                break;
+            }
             if magic_chars.contains(&c) && !escape {
                 break;
             }
